@@ -61,6 +61,13 @@ def run(cmd, timeout, cwd=None, env=None):
 def ensure_built(timeout: int = 1500) -> tuple[bool, str]:
     """Full .vo build of the Coq development (no-op when current)."""
     BUILD.mkdir(exist_ok=True)
+    mk = COQ / "Makefile"
+    if mk.exists() and mk.stat().st_mtime >= (COQ / "_CoqProject").stat().st_mtime:
+        # up to date already?  (question mode reads timestamps only; avoids
+        # queueing behind somebody else's build for nothing)
+        q = run(["make", "-q"], 120, cwd=COQ)
+        if q.returncode == 0:
+            return True, "up to date"
     lock = open(BUILD / ".lock", "w")
     fcntl.flock(lock, fcntl.LOCK_EX)
     try:
